@@ -121,6 +121,18 @@ def run(tier):
             c = vlib.get_line(tp, ln)
             print("OBSERVATION healprogress: %d of %d heals report a progress fraction that breaks the [0,1] contract (%s), e.g. %s"
                   % (sum(1 for o in obs if str(o[1]) == kd), cnt, kd, {k: c[k] for k in ("sizes", "disks", "total", "healed", "corrupted", "finalnum", "maxnum", "nan")}), flush=True)
+        sobs = vlib.parse_tagged(r.prints, "SCANOBS")
+        sdrift = vlib.parse_tagged(r.prints, "SCANDRIFT")
+        vlib.log("[tv] healprogress: the same %d damaged builds validated without a healer first: scan fraction above 1 / going back / not a number in %d; drift %d" % (cnt, len(sobs), len(sdrift)))
+        if sobs:
+            pick = [o for o in sobs if "ScanAboveOne" in str(o[1])] or sobs
+            c = vlib.get_line(tp, pick[0][0])
+            print("OBSERVATION scanprogress: %d of %d validations without a healer report a scan fraction that leaves [0,1], goes back or is not a number (%d above 1: every file that GREW is counted with its surplus first), e.g. %s"
+                  % (len(sobs), cnt, len([o for o in sobs if "ScanAboveOne" in str(o[1])]), {k: c[k] for k in ("sizes", "disks", "total", "scanfinalnum", "scanmaxnum", "scanbackwards", "scannan")}), flush=True)
+        if sdrift:
+            c = vlib.get_line(tp, sdrift[0][0])
+            print("NOTE: spec drift: HealProgress.tla's ScanFinal / ScanExcess predict another scan fraction than the real validator on %d lines, e.g. %s"
+                  % (len(sdrift), {k: c[k] for k in ("sizes", "disks", "total", "scanfinalnum", "scanmaxnum")}), flush=True)
         if drift:
             c = vlib.get_line(tp, drift[0][0])
             print("NOTE: spec drift: HealProgress.tla predicts other totals than the real healer on %d lines, e.g. %s expected (healed, corrupted, final) %s"
